@@ -57,6 +57,20 @@ def control(b, ctl):
         b["invocationSequenceNumber"] = 0
     if ctl.endswith("abs"):
         del b["invocationSequenceNumber"]
+    if ctl in ("emptyarr", "nulls"):
+        v = [] if ctl == "emptyarr" else None
+        b.setdefault("triggers", v)
+        if ctl == "nulls":
+            b.setdefault("userInformation", None)
+            b.setdefault("notifyUri" if "notifyUri" not in b else "roamingQBCInformation", None)
+        for e in b.get("multipleUnitUsage") or []:
+            e.setdefault("multihomedPDUAddress", None) if ctl == "nulls" else None
+            for c in e.get("usedUnitContainer") or []:
+                c["eventTimeStamps"] = v
+                c["triggers"] = v
+                if ctl == "nulls":
+                    c["triggerTimestamp"] = None
+                    c["pDUContainerInformation"] = None
 
 
 TRIG = {"partial": [dict(triggerType="VOLUME_LIMIT", triggerCategory="IMMEDIATE_REPORT")],
@@ -74,8 +88,10 @@ def to_case(hist, bid):
         eb["oneTimeEvent"] = True
         eb["oneTimeEventType"] = "IEC"
         reqs.append(dict(role="prior", method="POST", path="/chargingdata", body=json.dumps(eb)))
-    if s["prior"] in ("created", "debit", "nearfull", "evcreated"):
+    if s["prior"] in ("created", "debit", "nearfull", "evcreated", "createdpdu"):
         cb = good_create(supi, s.get("notify", "present") == "present")
+        if s["prior"] == "createdpdu":
+            cb["pDUSessionChargingInformation"] = PDU["full"]
         if s["prior"] == "nearfull":
             # the session's record is within a few octets of the 65 535-octet limit: the probed update rolls it over
             cb["serviceSpecificationInfo"] = "x" * 65380
@@ -111,7 +127,7 @@ def to_case(hist, bid):
               "_": "_", "u_1_2": supi.replace("/", "%2F") + "_1_2"}[s["rparam"]]
         reqs.append(dict(role="probe", method="PUT", path="/recharging/" + rp, body=""))
     # follow-up: a well-formed request for the same subscriber
-    if ep in ("update", "recharge") and s["prior"] in ("created", "debit", "nearfull", "evcreated"):
+    if ep in ("update", "recharge") and s["prior"] in ("created", "debit", "nearfull", "evcreated", "createdpdu"):
         b = dict(subscriberIdentifier=supi, invocationSequenceNumber=9, multipleUnitUsage=usage("online_req"))
         reqs.append(dict(role="follow", method="POST", path="/chargingdata/{REF}/update", body=json.dumps(b)))
     reqs.append(dict(role="follow", method="POST", path="/chargingdata", body=json.dumps(good_create(supi))))
@@ -125,8 +141,8 @@ def cfg(tier):
         Nfcis=S("present", "absent"), Plmns=S("absent", "ok", "ok3", "shortmcc", "shortmnc", "emptymnc", "multibyte", "mcc2mnc3", "mcc4mnc1", "mcc5", "mnc5", "mcc4mnc2", "home2", "home3"),
         Pdus=S("absent", "full", "no_info", "no_slice", "no_snssai"),
         Usages=S("none", "online_req", "online_noreq", "offline"), Trigs=S("none", "partial", "final"),
-        Rparams=S("u_1", "u", "u_x", "_", "u_1_2"), Priors=S("fresh", "created", "debit", "nearfull", "evcreated"), Notifys=S("present", "absent"),
-        Ctls=S("plain", "retx", "retx0", "retxabs", "isn0", "isnabs"), Bulks=S("none", "many"),
+        Rparams=S("u_1", "u", "u_x", "_", "u_1_2"), Priors=S("fresh", "created", "debit", "nearfull", "evcreated", "createdpdu"), Notifys=S("present", "absent"),
+        Ctls=S("plain", "retx", "retx0", "retxabs", "isn0", "isnabs", "emptyarr", "nulls"), Bulks=S("none", "many"),
         EmitOneIn=1)
     return c, 100000
 
